@@ -154,7 +154,25 @@ func genTxSpec(rt *rapid.T, nm *hx.NodeMachine, s *hx.MState, cfg genCfg, height
 	take := func(max *big.Int, label string) *big.Int {
 		// a share of what is left: 0, 1, small, half, all
 		var v *big.Int
-		switch rapid.IntRange(0, 5).Draw(rt, label) {
+		hi := 5
+		if max.BitLen() > 32 {
+			hi = 7 // amounts at machine-word boundaries only exist on chains with big genesis amounts
+		}
+		switch rapid.IntRange(0, hi).Draw(rt, label) {
+		case 6, 7:
+			// word boundaries (round-7 change C01-k: a zero test on the low 64 bits): 2^31, 2^32, 2^63, 2^64 and the
+			// largest multiple of 2^64 that is still available
+			cands := []*big.Int{}
+			for _, sh := range []uint{31, 32, 63, 64} {
+				if b := new(big.Int).Lsh(big.NewInt(1), sh); b.Cmp(max) <= 0 {
+					cands = append(cands, b)
+				}
+			}
+			if max.BitLen() > 64 {
+				m := new(big.Int).Rsh(max, 64)
+				cands = append(cands, m.Lsh(m, 64))
+			}
+			v = cands[rapid.IntRange(0, len(cands)-1).Draw(rt, label+"w")]
 		case 0:
 			v = big.NewInt(0)
 		case 1:
